@@ -38,7 +38,7 @@ def _one_wf(job):
     except Exception as exc:
         return {"seed": job["seed"], "error": "".join(traceback.format_exception(exc))[-3000:]}
     d = tempfile.mkdtemp(prefix=f"mttlc{job['seed']}-", dir=job["scratch"])
-    mtemit.write_mtdata(os.path.join(d, "MTData.tla"), w, [r["steps"] for r in runs])
+    mtemit.write_mtdata(os.path.join(d, "MTData.tla"), w, [r["steps"] for r in runs], [r["end"] for r in runs])
     with open(os.path.join(d, "RunMT.tla"), "w") as f:
         f.write("---- MODULE RunMT ----\nEXTENDS SchedMT\n====\n")
     with open(os.path.join(d, "RunMT.cfg"), "w") as f:
